@@ -1,12 +1,12 @@
 package props
 
 import (
-	"github.com/jcmoraisjr/haproxy-ingress/pkg/converters"
-	"github.com/jcmoraisjr/haproxy-ingress/pkg/utils"
-	"reflect"
 	"encoding/json"
 	"fmt"
+	"github.com/jcmoraisjr/haproxy-ingress/pkg/converters"
+	"github.com/jcmoraisjr/haproxy-ingress/pkg/utils"
 	"os"
+	"reflect"
 	"testing"
 
 	"github.com/kylelemons/godebug/pretty"
